@@ -351,8 +351,15 @@ impl Exec {
     fn lib_point(&self, id: &'static str, data: u64) {
         // monitor-only points never suspend
         if id == "matchers:get" {
-            let mut st = self.st.lock().unwrap();
-            st.matcher_use.push((data, std::thread::current().id()));
+            return;
+        }
+        if id == "matchers:use" {
+            // address of the scratch a scoring call of a pool thread really uses (the harness's
+            // own reference computations run on non-pool threads and are not recorded)
+            if rayon::current_thread_index().is_some() {
+                let mut st = self.st.lock().unwrap();
+                st.matcher_use.push((data, std::thread::current().id()));
+            }
             return;
         }
         if id == "boxcar:get_unchecked_inactive" {
